@@ -33,7 +33,7 @@ static rc::Gen<Step> genStep(const std::string &focus)
 				gen::weightedElement<int>({{10, 0}, {2, 1}, {1, 2}, {1, 3}, {1, 4}, {2, 5}, {2, 6}, {1, 7}, {1, 8}}), /* open_delay */
 				gen::weightedElement<int>({{14, S_OK}, {3, S_PARTIAL}, {1, S_ERROR}, {1, S_WOULDBLOCK}, {1, S_INTR}, {1, S_PARTIAL_THEN_ERROR}, {focus == "C14" ? 4 : 1, S_SLOW_PARTIAL}}),
 				gen::weightedElement<int>({{8, 0}, {12, 1}, {4, 2}, {2, 3}, {2, 4}, {1, 5}}), /* advance */
-				gen::oneOf(genMask(0), genMask(0), genMask(1)), gen::weightedElement<int>({{focus == "C18" ? 6 : 24, 0}, {1, 1}, {2, 2}, {1, 3}, {1, 4}, {1, 5}, {1, 6}, {1, 7}, {1, 8}}) /* bulk */,
+				gen::oneOf(genMask(0), genMask(0), genMask(1)), gen::weightedElement<int>({{focus == "C18" ? 14 : 24, 0}, {1, 1}, {2, 2}, {1, 3}, {1, 4}, {1, 5}, {1, 6}, {1, 7}, {1, 8}}) /* bulk */,
 				gen::weightedElement<int>({{15, 0}, {1, 1}}) /* new_session */);
 	auto part2 = gen::tuple(rng<int>(0, M_N - 1), rng<int>(0, 255), gen::weightedElement<int>({{3, 0}, {1, 1}}) /* keep */,
 				gen::weightedOneOf<int>({{4, gen::just(-1)}, {1, gen::element<int>(M_ANN_THEN_WD, M_ANN_THEN_WD, M_DUP_ANNOUNCE, M_WITHDRAW_UNKNOWN, M_PREFIX_BADVER)}}), rng<int>(0, 255),
